@@ -259,5 +259,9 @@ Definition fp_features (pkts : list pkt) (ch : Z) (wire : list (Z * list Z)) :=
 (** ** u_quic_frames.go QUICRandomFrames.buildInternal: which frame types one build emits.
     cryptoSafeRandUint64(min, max) yields min when max <= min, else a value in [min, max). *)
 Definition draw_ok (mn mx n : Z) : bool := if mx <=? mn then n =? mn else (mn <=? n) && (n <? mx).
+(* a PING range is harmless for the frame-type set when it cannot yield both zero and a
+   positive count: zero is not drawable, or nothing but zero is *)
+Definition ping_range_ok (mn mx : Z) : bool :=
+  negb (draw_ok mn mx 0) || (mx <=? mn) || (mx <=? 1).
 Definition rf_types (nPing nCrypto nPadding : nat) : list Z :=
   repeat 1 nPing ++ repeat 6 nCrypto ++ repeat 0 nPadding.
